@@ -497,6 +497,15 @@ fn syn_ident_ok(v: &str) -> bool {
     v.chars().all(|c| c.is_ascii_alphanumeric() || c == '_') && !matches!(v, "c" | "l" | "p" | "ctx" | "count" | "n")
 }
 
+/// when set, view flavours get `count = move || late_count() as T` (see `LATE_ITEMS`)
+pub static LATE_COUNTS: std::sync::atomic::AtomicBool = std::sync::atomic::AtomicBool::new(false);
+
+pub const LATE_ITEMS: &str = r##"
+static LATE: std::sync::atomic::AtomicI64 = std::sync::atomic::AtomicI64::new(0);
+fn late_count() -> i64 { LATE.load(std::sync::atomic::Ordering::SeqCst) }
+fn set_late(n: i64) { LATE.store(n, std::sync::atomic::Ordering::SeqCst) }
+"##;
+
 pub fn args_for(sig: &Sig, flavour: Flavour, count: Num) -> Option<(String, Env)> {
     let mut parts = vec![];
     // let-bindings for the shorthand argument forms (`x`, `<b>`): variables of that name in scope
@@ -533,7 +542,11 @@ pub fn args_for(sig: &Sig, flavour: Flavour, count: Num) -> Option<(String, Env)
             CountKind::Plural => count,
         };
         let lit = count_literal(kind, n);
-        if flavour.is_view() {
+        if flavour.is_view() && LATE_COUNTS.load(std::sync::atomic::Ordering::Relaxed) {
+            // the count closure reads a cell the probe changes between building the view and rendering it
+            let ty: String = lit.trim_start_matches(|c: char| c.is_ascii_digit() || c == '-' || c == '.' || c == 'e').to_string();
+            parts.push(format!("{} = move || late_count() as {ty}", ident(v)));
+        } else if flavour.is_view() {
             parts.push(format!("{} = move || {}", ident(v), lit));
         } else {
             parts.push(format!("{} = {}", ident(v), lit));
